@@ -441,6 +441,14 @@ class SymFloatInt:
         raise Unsupported("float comparison")
 
 
+import typing as _typing  # noqa: E402
+
+
+@model(_typing.cast)
+def _cast(eng: Any, typ: Any, value: Any) -> Any:
+    return value
+
+
 @model(builtins.print)
 def _print(eng: Any, *a: Any, **k: Any) -> Any:
     return None
